@@ -12,10 +12,10 @@ LEVEL = "fault_enumeration"
 CAP = 60
 RULE = (
     "scenario = generated machine + config + history with scripted nested sends (generator of C03, validators included). A fault-free run "
-    "yields every callback invocation (callback id, occurrence, step) of the scenario; EVERY one of them (cap 60 per scenario, counted) is "
+    "yields every callback invocation (callback id, occurrence, step) of the scenario, plus every evaluation of a guard that is the sole guard of its transitions; EVERY one of them (cap 60 per scenario, counted) is "
     "then made to raise on a fresh instance, and for a generated subset a second failure is injected into a later step of the faulty run; "
     "queued events that turn out not to be allowed (TransitionNotAllowed inside the drain) occur from the scripts. Oracle = reference "
-    "interpreter: the very exception object raised (the harness' exception, a library TransitionNotAllowed raised by user code, or a ValueError, in rotation) escapes the outermost call; state = source if the failure was in validators/conditions/"
+    "interpreter: the very exception object raised (the harness' exception, a library TransitionNotAllowed raised by user code, or a ValueError / KeyError / AttributeError, in rotation) escapes the outermost call; state = source if the failure was in validators/conditions/"
     "before/exit/on, target if in enter/after (as the interpreter's own state says, also under rtc=False nesting); queued events are dropped: "
     "the remaining history must produce exactly the interpreter's log (no stale event, machine not wedged). "
     "evaluations = injected runs; non-trivial = crash point not in the first callback group of the first event of its step, or events were "
@@ -37,15 +37,30 @@ class Clean(Play):
     def __init__(self, case, rendered=None):
         super().__init__(case, rendered)
         self.points = []
+        # guards that are the only guard entry (single provider) of every transition that uses them: whether such a guard is
+        # evaluated does not depend on the unspecified evaluation order, so "it raises" is a well-defined crash point
+        spec = case["spec"]
+        provs = {}
+        for g in spec.get("guards", []):
+            provs.setdefault(g["name"], []).append(f"{g['name']}@{g['prov']}")
+        users = {}
+        for t in spec["trans"]:
+            for name in t.get("cond", []) + t.get("unless", []):
+                users.setdefault(name, []).append(len(t.get("cond", [])) + len(t.get("unless", [])))
+        self.sole_guards = {provs[n][0] for n, sizes in users.items() if len(provs.get(n, [])) == 1 and all(x == 1 for x in sizes)}
 
     def after_step(self, i, step, obs, ctx=None):
         toks = list(self.H.log)
         super().after_step(i, step, obs, ctx)
         first_group = True
         seen_end = False
+        seen_guards = set()
         for n, t in enumerate(toks):
             if t[0] == "B":
                 self.points.append({"step": i, "cbid": t[1], "occ": t[2], "first": n == 0, "pos": n})
+            elif t[0] == "G" and t[1] not in seen_guards and t[1] in self.sole_guards:
+                seen_guards.add(t[1])
+                self.points.append({"step": i, "cbid": t[1], "occ": -1, "first": n == 0, "pos": n, "guard": True})
 
 
 class Faulty(Play):
@@ -69,14 +84,14 @@ class Faulty(Play):
                     self.later.append({"step": i, "cbid": t[1], "occ": t[2]})
 
 
-KINDS = ["boom", "boom", "tna", "value"]
+KINDS = ["boom", "tna", "value", "key", "boom", "attr"]
 
 
 def inject(case, points):
     c = dict(case)
     # the kind of exception rotates with the crash point: the harness' own exception, the library's TransitionNotAllowed
     # raised by user code, a builtin exception
-    c["faults"] = {str(p["step"]): [p["cbid"], p["occ"], KINDS[(p["occ"] + p.get("pos", 0) + len(p["cbid"])) % len(KINDS)]] for p in points}
+    c["faults"] = {str(p["step"]): [p["cbid"], p["occ"], "guard" if p.get("guard") else KINDS[(p["occ"] + p.get("pos", 0) + len(p["cbid"])) % len(KINDS)]] for p in points}
     return c
 
 
@@ -112,7 +127,7 @@ def run_case(case):
         stats["injected_runs"] += 1
         labels |= set(out["labels"])
         group = next((c["group"] for c in case["spec"]["cbs"] if f"{c['name']}@{c['prov']}" == pt["cbid"]), "?")
-        labels.add("fault-in:" + group)
+        labels.add("fault-in:" + ("guard" if pt.get("guard") else group))
         if not out["ok"]:
             return outcome(False, out["signature"], f"crash point {pt}: {out['detail']}", labels=labels, stats=stats, case={k: v for k, v in sub.items() if k != "pairs"})
         if not pt["first"] or out["nontrivial"]:
